@@ -29,6 +29,14 @@ fn dispatch(prop: &str, tier: &str, seed: u64, rest: &[String]) -> i32 {
             }
             rep.finish()
         }
+        "C03" | "C04" | "C05" | "C06" | "C10" | "C11" | "C12" | "C13" | "C14" => {
+            if tier == "replay" {
+                return vh::histprops::replay(prop, rest.first().map_or("", |s| s.as_str()));
+            }
+            let mut rep = Report::new(prop, ev_tier, seed);
+            vh::histprops::run(prop, &mut rep, tier);
+            rep.finish()
+        }
         _ => {
             eprintln!("unknown property {prop}");
             2
